@@ -1,8 +1,39 @@
 import PymtlVerif.Driver.Sexp
-/-! Handler `arb` (stub: not built yet). -/
-namespace PV.Driver.Arb
-open PV
+import PymtlVerif.Model.Arb
+/-!
+Handler `arb`: executable face of `Model/Arb.lean` for the C19 correspondence check.
 
-def handle (_args : List Sexp) : Option String := none
+* `arb run <hasEn> <n> <s0> ((<reset> <en> <reqs>) ...)` — a whole input history starting with register value
+  `s0`; reply: one `(prio grants priority_en next)` group per cycle (`PV.Arb.trace`).
+* `arb comb <n> <reqs> <prio>` — the combinational network alone; reply: `grants reg_in kills grants_int`
+  where `kills` (2n+1 bits) and `grants_int` (2n bits) are the internal wires packed into integers.
+-/
+namespace PV.Driver.Arb
+open PV PV.Arb
+
+def in? : Sexp → Option In
+  | .list [r, e, q] => do some ⟨← r.bool?, ← e.bool?, ← q.nat?⟩
+  | _ => none
+
+def showCycle (c : Cycle) : String :=
+  s!"({c.prio} {c.grants} {b2s c.prioEn} {c.next})"
+
+def handle (args : List Sexp) : Option String :=
+  match args with
+  | [.atom "run", hasEn, n, s0, .list hist] => do
+      let hasEn ← hasEn.bool?
+      let n ← n.nat?
+      let s0 ← s0.nat?
+      let h ← hist.mapM in?
+      some (" ".intercalate ((trace hasEn n s0 h).map showCycle))
+  | [.atom "comb", n, reqs, prio] => do
+      let n ← n.nat?
+      let reqs ← reqs.nat?
+      let prio ← prio.nat?
+      let g := grants n reqs prio
+      let k := pack (2 * n + 1) (kills (prioInt n prio) (reqsInt n reqs))
+      let gi := pack (2 * n) (grantsInt (prioInt n prio) (reqsInt n reqs))
+      some s!"{g} {regIn n g} {k} {gi}"
+  | _ => none
 
 end PV.Driver.Arb
